@@ -208,6 +208,9 @@ func checkC03(c *Ctx, w *World) {
 		c.check(imp && oldOK && !inLoop(s.Instr), "C03.remove", construct, p.ipos(s.Instr), "removes exactly the old connection of the slot whose replacement just became READY, once", "RemoveSubConn is not (only) the old connection of a completed refresh: "+wit+" arg="+vstr(arg))
 	}
 
+	// ---- C03.one-extra: at most one outstanding replacement per channel
+	pl.flagClearedOnlyAtSwap("C03.one-extra")
+
 	// ---- C03.min
 	emsCalls := pl.callsIn(ic, ems)
 	c.floor("C03.min", len(emsCalls), 1)
